@@ -62,6 +62,9 @@ chk("C20", "exploration", "deterministic simulation: normal-form histories on v2
 chk("C13", "exploration", T + "raw-disk format audit with an independent codec after every structural step (library -> independent decoder), database images written by the independent encoder and opened by the library, and stored-byte corruption faults / mutated encodings against every decoder",
     "Both directions of the format check on seeded histories; decoder totality by direct calls on mutated valid encodings and random bytes (bit flips, truncation, extension, length inflation, valid prefix + garbage) and by corrupting stored root nodes, root markers, fast nodes, the label and leaves on the simulated disk before the calls that decode them.", N + " Totality is sampled, not proved; wrong data from corrupted payloads is not judged (no checksums in the format).", "DESIGN.md §5 C13")
 
+chk("C16", "exploration", "deterministic simulation: a seeded legacy history is executed by the real legacy library (iavl v0.20.0, separate legacygen binary), its raw dump is loaded into the simulated disk, the current library opens it and continues with a generated new-format history; every version meant to remain is compared with what the legacy library reported and with the reference after every structural step",
+    "Legacy histories with and without legacy-side deletions; commits (incl. without writes on a legacy root), DeleteVersionsTo below/at/above the boundary, LoadVersionForOverwriting to legacy and new versions, reopenings with any fast-index setting and small flush thresholds.", "The legacy library's own reports are the oracle for legacy versions; R2 is confirmed against them before it is trusted for new versions. Versions not meant to remain are not judged (pruning below the boundary may be deferred). " + N, "DESIGN.md §5 C16")
+
 NOT_YET = {
 }
 
